@@ -22,7 +22,7 @@ RULE = (
     "direction outside one arc (certain non-crossing, circles still cross there), and random pairs; crossing angle "
     "classes generic (>=1e-2) and shallow (1e-5..1e-2); extreme_gca_latitude: apex inside / outside the arc decided "
     "exactly. Placements: generic, through a pole, endpoint at a pole, endpoint 2e-6..1e-3 rad beside a pole, along a meridian (incl. planes x=0, y=0), along the "
-    "equator, across lon=180 and across lon=0. Each case is repeated under endpoint swap, arc swap and 6 exact rotations "
+    "equator, across lon=180 and across lon=0, short arcs (4e-5..1.2e-3 rad, also both arcs of a crossing short, also shallow). Each case is repeated under endpoint swap, arc swap and 6 exact rotations "
     "about the polar axis (quarter turns and Pythagorean triples), expectation re-derived exactly and results compared "
     "with each other. Margins: every generated case is >= 2e-6 rad (10x float safety) from every decision boundary. "
     "Non-trivial = special placement or an expected crossing / expected True."
@@ -38,7 +38,8 @@ MIN_EVAL = {
 }
 
 MARGIN = 2e-6
-PLACEMENTS = ["generic", "through_pole", "endpoint_pole", "endpoint_near_pole", "meridian", "meridian_x0", "meridian_y0", "equator", "across_180", "across_0"]
+PLACEMENTS = ["generic", "through_pole", "endpoint_pole", "endpoint_near_pole", "meridian", "meridian_x0", "meridian_y0", "equator", "across_180", "across_0", "short", "short"]
+MIN_LEN = {"short": 4e-5}  # edges of high-resolution meshes: 4e-5 .. 1.2e-3 rad (250 m .. 8 km)
 
 
 def cases(tier, seed):
@@ -64,6 +65,12 @@ def _arc(rng, placement):
                 k = int(rng.integers(20, 5000))
                 d = _ivec(rng, 1000)
                 b = X.lin(k, a, int(rng.integers(1, 2000)), d)
+        elif placement == "short":
+            a = _ivec(rng)
+            K = int(10 ** rng.uniform(0, 1.6))
+            b = X.lin(K, a, 1, _ivec(rng, 1000))
+            if rng.random() < 0.5:
+                a, b = b, a
         elif placement == "through_pole":
             x, y = int(rng.integers(-1000, 1001)), int(rng.integers(-1000, 1001))
             if x == 0 and y == 0:
@@ -120,7 +127,10 @@ def _arc(rng, placement):
         if not any(a) or not any(b) or X.is_zero(X.cross(a, b)):
             continue
         w = X.ang(X.fvec(a), X.fvec(b))
-        if 1e-3 < w < math.pi - 1e-3:
+        if placement == "short":
+            if MIN_LEN["short"] < w < 1.2e-3:
+                return a, b
+        elif 1e-3 < w < math.pi - 1e-3:
             return a, b
     raise RuntimeError("no arc for " + placement)
 
@@ -273,7 +283,14 @@ def check_gca(ctx, rng, placement):
             u = _ivec(rng, 10**4)
         k1, k2 = int(rng.integers(1, 300)), int(rng.integers(1, 300))
         m1, m2 = int(rng.integers(1, 300)), int(rng.integers(1, 300))
-        if shallow:
+        if placement == "short" and rng.random() < 0.8:
+            # the second arc is short as well (two mesh edges of a high-resolution region): q scaled up so that q +- m*u spans 4e-5..1e-3 rad
+            qn = math.sqrt(float(X.dot(q, q)))
+            un = math.sqrt(float(X.dot(u, u)))
+            tgt = 10 ** rng.uniform(-4.2, -3.1)
+            f = max(1, int(round((m1 + m2) * un / (qn * tgt * min(k1, k2)))))
+            qq = (q[0] * f, q[1] * f, q[2] * f)
+        elif shallow:
             # keep the second arc shorter than pi: scale q up so that the offsets are moderate
             qn = math.sqrt(float(X.dot(q, q)))
             un = math.sqrt(float(X.dot(u, u)))
@@ -294,8 +311,10 @@ def check_gca(ctx, rng, placement):
         return
     A, B, C, D = X.fvec(a), X.fvec(b), X.fvec(c), X.fvec(d)
     w2 = X.ang(C, D)
-    if not (1e-3 < w2 < math.pi - 1e-3):
+    if not ((MIN_LEN["short"] if placement == "short" else 1e-3) < w2 < math.pi - 1e-3):
         return
+    if placement == "short":
+        ctx.observe("gca_both_short" if w2 < 1.2e-3 else "gca_short_vs_long")
     x = X.crossing_dir(a, b, c, d)
     if X.is_zero(x):
         return
@@ -352,8 +371,25 @@ def check_gca(ctx, rng, placement):
 def check_extreme(ctx, rng, placement):
     _, ext, _ = _lib()
     a, b = _arc(rng, placement)
-    if placement in ("endpoint_pole",) and rng.random() < 0.5:
-        pass
+    if placement == "short" and rng.random() < 0.7:
+        # a short, roughly east-west arc that contains its great circle's turning point (the top of a cell edge at high latitude)
+        for _ in range(50):
+            n = _ivec(rng, 2000)
+            t = X.cross(n, (0, 0, 1))
+            if X.is_zero(t):
+                continue
+            ap = _reduce(X.cross(t, n))  # direction of extreme latitude on the circle with normal n (sign irrelevant: +-ap are both apexes)
+            t = _reduce(t)
+            apn, tn = math.sqrt(float(X.dot(ap, ap))), math.sqrt(float(X.dot(t, t)))
+            m1, m2 = int(rng.integers(1, 200)), int(rng.integers(1, 200))
+            tgt = 10 ** rng.uniform(-4.2, -2.4)
+            K = max(1, int(round((m1 + m2) * tn / (apn * tgt))))
+            a2_, b2_ = X.lin(K, ap, m1, t), X.lin(K, ap, -m2, t)
+            w = X.ang(X.fvec(a2_), X.fvec(b2_))
+            if MIN_LEN["short"] < w < 5e-3 and abs(X.lat_of(ap)) < 1.56:
+                a, b = a2_, b2_
+                ctx.observe("extreme_short_arc_around_apex")
+                break
     A, B = X.fvec(a), X.fvec(b)
     for which in ("max", "min"):
         ap = X.apex(a, b, which)
